@@ -6,7 +6,7 @@
     history [h]; [t0] is the instant the stream was created and [tm n] the instant
     of its n-th collection.  All theorems hold for every history, every instrument
     kind of the stated class, every instrument index and every clock. *)
-From Verif Require Import Lib.Base Lib.MetricsModel C08.Spec C08.Model C08.Proofs.
+From Verif Require Import Lib.Base Lib.MetricsModel C08.Spec C08.Model C08.Proofs C08.Sound.
 Open Scope Z_scope.
 
 (** Counters, up-down counters and histograms (sum, count and every bucket are the
@@ -66,14 +66,7 @@ Theorem c08_gauge_last : forall x i h t0 t0' tm tm',
   (class_of x = CAsyncGauge ->
      GaugeCycle (cycles_async i h []) (map s_points (stream x i Delta t0 tm h)) /\
      GaugeCycle (cycles_async i h []) (map s_points (stream x i Cumulative t0' tm' h))).
-Proof.
-  intros. split; intros Hx.
-  - split; [|now apply gauge_sofar].
-    replace (cycles_sync i h []) with (cycles x i h) by (destruct x; try discriminate; reflexivity).
-    apply gauge_cycle. right. now split.
-  - replace (cycles_async i h []) with (cycles x i h) by (destruct x; try discriminate; reflexivity).
-    split; apply gauge_cycle; now left.
-Qed.
+Proof. exact gauge_last. Qed.
 Print Assumptions c08_gauge_last.
 
 (** After [Unregister c], and until [c] is registered again, nothing callback [c] would
@@ -96,10 +89,7 @@ Print Assumptions c08_never_registered_silent.
 Theorem c08_points_canonical : forall x i t t0 tm h,
   AllSorted (stream x i t t0 tm h) /\
   length (stream x i t t0 tm h) = length (filter (fun o => match o with Collect _ => true | _ => false end) h).
-Proof.
-  intros. split; [apply all_sorted|]. rewrite stream_length. unfold cycles.
-  destruct (is_async x); [apply cycles_async_length | apply cycles_sync_length].
-Qed.
+Proof. exact points_canonical. Qed.
 Print Assumptions c08_points_canonical.
 
 (** Law of the specified deltas: over a run of consecutive cycles n..n+m in which a set is
@@ -114,6 +104,18 @@ Theorem c08_async_deltas_telescope : forall cycles k n m y,
          (seq n (S m))) 0 = y - prev_total k cycles n.
 Proof. exact async_delta_telescope. Qed.
 Print Assumptions c08_async_deltas_telescope.
+
+(** The decidable check that the correspondence run evaluates on the implementation's traces
+    implies the Prop reading of the clause of the stream's class (for any traces whatsoever). *)
+Theorem c08_checker_sound : forall cl i h dtr ctr, stream_ok cl i h dtr ctr = true ->
+  match cl with
+  | CSyncAdd => RunningDelta (map s_points dtr) (map s_points ctr)
+  | CSyncGauge => GaugeCycle (cycles_sync i h []) (map s_points dtr) /\ GaugeSoFar (cycles_sync i h []) (map s_points ctr)
+  | CAsyncSum => AsyncDelta (cycles_async i h []) (map s_points dtr) /\ AsyncCum (cycles_async i h []) (map s_points ctr)
+  | CAsyncGauge => GaugeCycle (cycles_async i h []) (map s_points dtr) /\ GaugeCycle (cycles_async i h []) (map s_points ctr)
+  end.
+Proof. exact stream_ok_sound. Qed.
+Print Assumptions c08_checker_sound.
 
 (** ** Non-vacuity *)
 Definition ex_h : list op :=
